@@ -9,7 +9,7 @@ use circ::{AtomicRc, AtomicWeak, Guard, Rc, Snapshot, Weak, WeakSnapshot};
 use crate::ops::*;
 use crate::payload::{AlignMarker, Node};
 use crate::sched::{sim, user_yield};
-use crate::shadow::{read_state, shadow, Origin, Src, ST_DESTRUCTED};
+use crate::shadow::{read_state, read_word, shadow, Origin, Src, ST_DESTRUCTED};
 
 pub struct World<M: AlignMarker> {
     pub roots: Vec<AtomicRc<Node<M>>>,
@@ -410,8 +410,57 @@ impl<M: AlignMarker> Ctx<M> {
                         }
                     }
                 }
+                // d = 1..4: a field initialised through a conversion impl from the same source
+                // (1 AtomicRc::from(&Rc), 2 AtomicRc::from(Rc), 3 AtomicWeak::from(&Rc), 4 AtomicWeak::from(&Weak))
+                let mut node = node;
+                let mut conv_field = 0usize;
+                if d >= 1 && d <= 4 && b < NRC {
+                    if let Some(src) = self.rcs[b].as_ref() {
+                        let w = circ::verif::rc_word(src);
+                        if let Some(t) = shadow().obj_of_word(w) {
+                            if shadow().objs[t as usize].rank > rank {
+                                match d {
+                                    1 => {
+                                        node.next[0] = AtomicRc::from(src);
+                                        shadow().acquire_strong(t, "AtomicRc::from(&Rc)");
+                                    }
+                                    2 => {
+                                        let cl = src.clone();
+                                        shadow().acquire_strong(t, "Rc::clone");
+                                        node.next[1] = AtomicRc::from(cl);
+                                    }
+                                    3 => {
+                                        node.wlink = AtomicWeak::from(src);
+                                        shadow().acquire_weak(t, "AtomicWeak::from(&Rc)");
+                                    }
+                                    _ => {
+                                        let wk = src.downgrade();
+                                        shadow().acquire_weak(t, "Rc::downgrade");
+                                        node.wlink = AtomicWeak::from(&wk);
+                                        shadow().acquire_weak(t, "AtomicWeak::from(&Weak)");
+                                        shadow().release_weak(t, 1);
+                                        drop(wk);
+                                    }
+                                }
+                                conv_field = d;
+                                sim().probe("field_from_conversion");
+                            }
+                        }
+                    }
+                }
                 let rc = Rc::new(node);
                 self.register(id, circ::verif::rc_word(&rc), 1);
+                if conv_field != 0 {
+                    // the cell histories start from this content, not from null
+                    let n = rc.as_ref().unwrap();
+                    let seq = sim().seq;
+                    let (cell, weak_cell, w) = match conv_field {
+                        1 => (circ::verif::atomic_rc_addr(&n.next[0]), false, read_word(circ::verif::atomic_rc_addr(&n.next[0]))),
+                        2 => (circ::verif::atomic_rc_addr(&n.next[1]), false, read_word(circ::verif::atomic_rc_addr(&n.next[1]))),
+                        _ => (circ::verif::atomic_weak_addr(&n.wlink), true, read_word(circ::verif::atomic_weak_addr(&n.wlink))),
+                    };
+                    hist_push(HistEv { tid, cell, weak_cell, kind: if weak_cell { K::StoreW } else { K::Store }, weak_cas: false, inv: seq, ret: seq, input: self.val(w), expected: (0, 0), ok: true, output: (0, 0), back: (0, 0) });
+                }
                 self.put_rc(a, rc);
             }
             K::NewMany => {
@@ -533,9 +582,13 @@ impl<M: AlignMarker> Ctx<M> {
             K::Downgrade => {
                 if a < NRC && b < NWEAK && self.weaks[b].is_none() {
                     if let Some(src) = self.rcs[a].as_ref() {
-                        let w = src.downgrade();
+                        // d = 1 (and guard c live): through a Snapshot and the conversion impl
+                        let w = match (d, self.guards.get(c).and_then(|g| g.as_ref())) {
+                            (1, Some(gs)) => Weak::from(src.snapshot(&gs.g)),
+                            _ => src.downgrade(),
+                        };
                         if let Some(ob) = shadow().obj_of_word(circ::verif::weak_word(&w)) {
-                            shadow().acquire_weak(ob, "Rc::downgrade");
+                            shadow().acquire_weak(ob, if d == 1 { "Weak::from(Snapshot)" } else { "Rc::downgrade" });
                         }
                         if (circ::verif::weak_word(&w) ^ circ::verif::rc_word(src)) & (shadow().addr_mask | shadow().tag_mask) != 0 {
                             sim().violation("C10", "downgrade-wrong-pointer", "downgrade-wrong-pointer", "Rc::downgrade returned a pointer to something else");
@@ -631,9 +684,13 @@ impl<M: AlignMarker> Ctx<M> {
                         if self.guards[g].is_none() {
                             return;
                         }
-                        let rc = s.counted();
+                        // d = 1: the same through the conversion impl
+                        let rc = if d == 1 { Rc::from(s) } else { s.counted() };
                         if let Some(ob) = shadow().obj_of_word(circ::verif::rc_word(&rc)) {
-                            shadow().acquire_strong(ob, "Snapshot::counted");
+                            shadow().acquire_strong(ob, if d == 1 { "Rc::from(Snapshot)" } else { "Snapshot::counted" });
+                        }
+                        if (circ::verif::rc_word(&rc) ^ circ::verif::snapshot_word(&s)) & (shadow().addr_mask | shadow().tag_mask) != 0 {
+                            sim().violation("C01", "counted-wrong-pointer", "counted-wrong-pointer", "Snapshot::counted / Rc::from(Snapshot) returned a pointer to something else");
                         }
                         self.put_rc(b, rc);
                     }
@@ -643,7 +700,7 @@ impl<M: AlignMarker> Ctx<M> {
                 if a < NSNAP && b < NWSNAP {
                     if let Some((s, g)) = self.snaps[a] {
                         let Some((_, uid)) = self.guard_ref(g) else { return };
-                        let ws = s.downgrade();
+                        let ws = if d == 1 { WeakSnapshot::from(s) } else { s.downgrade() };
                         if let Some(ob) = shadow().obj_of_word(circ::verif::weak_snapshot_word(&ws)) {
                             shadow().hold(tid, uid, ob, true, Src::SnapDowngrade);
                         }
@@ -900,9 +957,9 @@ impl<M: AlignMarker> Ctx<M> {
                         if self.guards[g].is_none() {
                             return;
                         }
-                        let w = s.counted();
+                        let w = if d == 1 { Weak::from(s) } else { s.counted() };
                         if let Some(ob) = shadow().obj_of_word(circ::verif::weak_word(&w)) {
-                            shadow().acquire_weak(ob, "WeakSnapshot::counted");
+                            shadow().acquire_weak(ob, if d == 1 { "Weak::from(WeakSnapshot)" } else { "WeakSnapshot::counted" });
                         }
                         self.weaks[b] = Some(w);
                     }
